@@ -7,7 +7,7 @@ from gen import codec as G
 
 ID = "C10"
 LEVEL = "proof"
-LEAN_IMPORTS = ["WM.Props.C10", "WM.Props.C10Formats"]
+LEAN_IMPORTS = ["WM.Props.C10", "WM.Props.C10Formats", "WM.Props.C10Bytes"]
 THEOREMS = [
     "WM.C10.delta_roundtrip", "WM.C10.ids_lawful", "WM.C10.blocks_roundtrip", "WM.C10.block_info",
     "WM.C10.block_info_fields", "WM.C10.aggregates_meaning", "WM.C10.terminfo", "WM.C10.terminfo_through_bytes",
@@ -18,7 +18,7 @@ THEOREMS = [
     "WM.C10.values_characters", "WM.C10.values_positionBoosts", "WM.C10.values_characterBoosts",
     "WM.C10.values_all", "WM.C10.word_values_shape", "WM.C10.vector_items",
     "WM.C10.doc_post_spec", "WM.C10.term_postings_spec", "WM.C10.vector_transpose_model", "WM.C10.vector_transpose",
-    "WM.C10.values_ok", "WM.C10.postings_end_to_end",
+    "WM.C10.values_ok", "WM.C10.postings_end_to_end", "WM.C10.terminfo_bytes",
 ]
 # theorem -> what is missing for the full statement of the property
 PARTIAL = {
@@ -42,8 +42,13 @@ PARTIAL = {
         "end-to-end stream against Layer S",
     "WM.C10.terminfo_through_bytes":
         "document-number postings whose ids are not the 0xffffffff NO_ID sentinel (a docnum that W3 cannot tell "
-        "from `no id`; never reached by an index below 2^32-1 documents); the byte layout of to_bytes itself is "
-        "not modelled, only the lossy conversions it applies (float32, length byte, sentinel)",
+        "from `no id`; never reached by an index below 2^32-1 documents); the byte layout of to_bytes / from_bytes "
+        "and of the fixed-position readers is terminfo_bytes, which concludes exactly this throughBytes",
+    "WM.C10.terminfo_bytes":
+        "struct packing of a float32 is a parameter pair (packF, unpackF) with unpackF (packF w) = f32 w and 4 bytes; "
+        "the pickle of inlined postings is an opaque byte string; the OverflowError of struct 'f' for weights beyond "
+        "the float32 range is not modelled. The block framing of the posting file (length int, pickled info tuple, "
+        "data) stays abstracted to block records",
     "WM.C10.inline_read":
         "for a value-less format (fixedsize 0) the inlined reader shows b'' where the block reader shows None; the "
         "theorem states exactly this difference instead of hiding it",
@@ -177,6 +182,127 @@ def _real_reset(case):
         return G.real_reset_readout(c["kind"], c["bl"], c["comp"], c["inl"], c["fs"], c["postings"], c["ops"])
     except Exception as e:  # noqa
         return "harness-exc %r" % (e,)
+
+
+def _ti_case(rng):
+    """A W3TermInfo with statistics at the struct limits, with an extent or inlined postings."""
+    import struct
+    big = [0, 1, 255, 256, 65535, 2 ** 31 - 1, 2 ** 31, 2 ** 32 - 2, 2 ** 32 - 1]
+    w = rng.choice([0.0, 1.0, 0.5, 3.25, 1e10, 2.0 ** -130, float(rng.randint(0, 10 ** 6)) / 8])
+    mw = rng.choice([0.0, 1.0, 2.5, w])
+    malformed = rng.random() < 0.12
+    c = {"w": w, "mw": mw, "df": rng.choice(big + [rng.randint(0, 1000)]),
+         "mnl": rng.choice([None, 0, 1, 17, 18, 255, 1000, 106374, 10 ** 7]),
+         "mxl": rng.choice([0, 1, 17, 18, 300, 106373, 106374, 10 ** 7]),
+         "mnid": rng.choice([None] + big), "mxid": rng.choice([None] + big), "malformed": malformed}
+    if rng.random() < 0.6:
+        c["ref"] = ("ext", rng.choice([0, 4, 2 ** 31, 2 ** 40, 2 ** 63 - 1]), rng.choice([0, 1, 77, 2 ** 31 - 1]))
+    else:
+        c["ref"] = ("inl", bytes(rng.randrange(256) for _ in range(rng.choice([1, 5, 40]))))
+    if malformed:
+        k = rng.choice(["df", "mnid", "mxid", "len", "off"])
+        if k == "len" and c["ref"][0] == "ext":
+            c["ref"] = ("ext", c["ref"][1], rng.choice([2 ** 31, -2 ** 31 - 1]))
+        elif k == "off" and c["ref"][0] == "ext":
+            c["ref"] = ("ext", rng.choice([2 ** 63, -2 ** 63 - 1]), c["ref"][2])
+        elif k in ("df", "mnid", "mxid"):
+            c[k] = rng.choice([2 ** 32, -1, 2 ** 40])
+        if c["df"] < 0:
+            c["df"] = 2 ** 32
+    return c
+
+
+def _ti_line(c):
+    import struct
+    f = lambda x: struct.pack("!f", x).hex()
+    ref = "(ext %d %d)" % c["ref"][1:] if c["ref"][0] == "ext" else "(inl %s)" % c["ref"][1].hex()
+    return "c10 tibytes %s %s %d %s %d %s %s %s" % (f(c["w"]), f(c["mw"]), c["df"], G.opt(str, c["mnl"]), c["mxl"],
+                                                   G.opt(str, c["mnid"]), G.opt(str, c["mxid"]), ref)
+
+
+class _InlinedBytes(object):
+    """Pickles to exactly the bytes of the case (the model carries the pickle as an opaque string)."""
+
+
+def _real_ti(c):
+    import pickle
+    import struct
+    from io import BytesIO
+    from whoosh.codec.whoosh3 import W3TermInfo
+    from whoosh.filedb.structfile import StructFile
+    ti = W3TermInfo(weight=c["w"], df=c["df"], minlength=c["mnl"], maxlength=c["mxl"], maxweight=c["mw"],
+                    minid=c["mnid"], maxid=c["mxid"])
+    if c["ref"][0] == "ext":
+        ti.set_extent(c["ref"][1], c["ref"][2])
+        bs = None
+    else:
+        # inlined: (ids, weights, values); the model only needs the pickled bytes
+        inl = ((1, 2), (1.0, 2.0), (c["ref"][1], b""))
+        ti.set_inlined(*inl)
+    try:
+        bs = ti.to_bytes()
+    except struct.error:
+        return "err StructError", None
+    pickled = None
+    if c["ref"][0] == "inl":
+        pickled = bs[23:]
+    u = lambda x: "%d" % struct.unpack("!I", struct.pack("!f", x))[0]
+    t2 = W3TermInfo.from_bytes(bs)
+    if t2.is_inlined():
+        ref = "(inl %s)" % (pickled.hex() if (pickled is not None and t2.inlined_postings() == inl) else "MISMATCH")
+    else:
+        off, ln = t2.extent()
+        if isinstance(ln, tuple):     # from_bytes keeps the 1-tuple of struct.unpack (no [0]); nothing reads it
+            ln = ln[0]
+        ref = "(ext %d %d)" % (off, ln)
+    sf = StructFile(BytesIO(b"junk" + bs))
+    mm = W3TermInfo.read_min_and_max_length(sf, 4)
+    fixed = "(%s %d %d %d %s)" % (u(W3TermInfo.read_weight(sf, 4)), W3TermInfo.read_doc_freq(sf, 4), mm[0], mm[1],
+                                  u(W3TermInfo.read_max_weight(sf, 4)))
+    return "ok %s (%s %d %s %d %s %s %s %s) %s" % (
+        bs.hex(), u(t2._weight), t2._df, G.opt(str, t2._minlength), t2._maxlength, u(t2._maxweight),
+        G.opt(str, t2._minid), G.opt(str, t2._maxid), ref, fixed), pickled
+
+
+def stream_tibytes(ctx, n):
+    """W3TermInfo.to_bytes / from_bytes / read_* against WM/Model/CodecBytes.lean, byte for byte."""
+    rng = ctx.rng("tibytes")
+    cases = [_ti_case(rng) for _ in range(n)]
+    real = [_real_ti(c) for c in cases]
+    lines = []
+    for c, (r, pickled) in zip(cases, real):
+        if pickled is not None:          # hand the real pickle to the model as the opaque inlined string
+            c = dict(c, ref=("inl", pickled))
+        lines.append(_ti_line(c))
+    model = ctx.driver.ask(lines)
+    for c, (r, _), m in zip(cases, real, model):
+        ctx.case(("tibytes", repr(sorted(c.items()))), nontrivial=c["mnid"] is None or c["mxl"] > 17 or c["ref"][0] == "inl")
+        ctx.stat("tibytes:" + ("malformed" if c["malformed"] else c["ref"][0]))
+        ctx.stat("tibytes:outcome=" + m.split(" ")[0])
+        if m != r:
+            cj = {k: (v.hex() if isinstance(v, bytes) else repr(v)) for k, v in c.items()}
+            ctx.divergence("W3TermInfo.to_bytes/from_bytes/read_*", cj, m[:600], r[:600])
+        elif r.startswith("ok"):
+            # end to end: the fixed-position readers agree with from_bytes, df / extent / ids survive
+            parts = parse_sexp(r.split(" ", 2)[2])
+            full, fixed = parts[0], parts[1]
+            want_ids = [("none" if x is None or x == 2 ** 32 - 1 else "%d" % x) for x in (c["mnid"], c["mxid"])]
+            problems = []
+            if [full[0], full[1], full[2], full[3], full[4]] != list(fixed):
+                problems.append("read_* differ from from_bytes")
+            if full[1] != "%d" % c["df"]:
+                problems.append("df")
+            if [full[5], full[6]] != want_ids:
+                problems.append("ids")
+            if c["ref"][0] == "ext" and list(full[7]) != ["ext", "%d" % c["ref"][1], "%d" % c["ref"][2]]:
+                problems.append("extent")
+            if c["ref"][0] == "inl" and "MISMATCH" in r:
+                problems.append("inlined postings")
+            if problems:
+                ctx.violation("W3TermInfo.from_bytes/read_*:differs-from-what-was-packed:" + "+".join(problems),
+                              {k: (v.hex() if isinstance(v, bytes) else repr(v)) for k, v in c.items()},
+                              "df, ids (None <-> 0xffffffff), extent unchanged; read_* == from_bytes", r[:300],
+                              "term info record read back from its bytes")
 
 
 def stream_reset(ctx, cases):
@@ -480,7 +606,8 @@ def run(ctx):
     stream_codec(ctx, cases)
     stream_reset(ctx, cases[:ctx.budget(1200, 12000)])
     stream_formats(ctx, ctx.budget(4000, 40000))
-    stream_index(ctx, ctx.budget(900, 8000))
+    stream_tibytes(ctx, ctx.budget(1500, 12000))
+    stream_index(ctx, ctx.budget(800, 8000))
     stream_f32(ctx, ctx.budget(600, 4000))
 
 
